@@ -16,7 +16,13 @@ RULE = (
     "_ListenerCollection under the deterministic scheduler (yield points at every flag read/write, the mutex "
     "acquisition and inside the listeners; scripted listener exceptions); the linearised trace must be accepted by the "
     "Coq acceptor and the final flags / run counters must equal the model's. non-trivial = two threads interleave "
-    "inside one call"
+    "inside one call. family prop: instance-level listen/remove/contains/dispatch histories with 1-4 "
+    "_Dispatch._update() hops (chains 0->1->2->..., random graphs, only_propagate both ways) and snapshots of BOTH "
+    "registry maps (_key_to_collection and _collection_to_key) over owners x keys, compared with the model and with the "
+    "registrations in force; non-trivial = >= 2 hops followed by a remove. family once: a once=True / "
+    "_once_unless_exception=True listener between two ordinary listeners, dispatched by 1-3 threads under the "
+    "scheduler with a yield inside the listener body, re-entrant dispatch from inside the body and scripted exceptions; "
+    "trace accepted by the only_once model; oracle: the body is never entered while it is running, and at most once"
 )
 TRUSTED = [
     "T2 for _exec_once_impl: statement skeleton compared structurally, the flag-setting condition translated to Gallina "
@@ -35,6 +41,10 @@ ASSUMPTIONS = [
     "single attribute loads/stores are atomic",
 ]
 LEVEL_TEXT = (
+    "[propagation] invariant proof over the model with both registry maps: forward and reverse map agree after every "
+    "operation, every listener of every collection is registered for it however many _update hops it went through, "
+    "remove() reaches every copy (guard: no function object twice in one collection; refutation outside). [only_once] "
+    "the body of a once=True listener is entered at most once under every interleaving incl. re-entrant dispatch. "
     "Coq refinement proof for every operation sequence (unbounded) over single-inheritance hierarchies without "
     "repeated class-level registrations: every result of the model (calls of each dispatch, remove/contains results) "
     "equals the registration-log specification; refutations for the three excluded regions (late multiple-inheritance "
@@ -44,7 +54,8 @@ LEVEL_TEXT = (
     "retry runs, exactly one run at quiescence without exceptions."
 )
 LEVEL_NOTE = (
-    "partial: _update()/_join() (hence the effect of propagate=True), _clear(), _sa_propagate_class_events=False "
+    "partial: _join(), _clear(), _sa_propagate_class_events=False (the class-hierarchy model has no _update; the "
+    "propagation model has no class hierarchy), "
     "targets, legacy signatures and garbage collection of targets are not modelled; multiple inheritance is covered "
     "by the correspondence and the oracle only (the guarded theorem is for single inheritance); class-level "
     "listeners are called before instance-level ones (documented design) - registration order is per level; the "
@@ -76,6 +87,9 @@ ANCHORS = [
     ("lib/sqlalchemy/event/attr.py", "_ListenerCollection.remove"),
     ("lib/sqlalchemy/event/registry.py", "_stored_in_collection"),
     ("lib/sqlalchemy/event/registry.py", "_removed_from_collection"),
+    ("lib/sqlalchemy/event/registry.py", "_stored_in_collection_multi"),
+    ("lib/sqlalchemy/event/attr.py", "_ListenerCollection._update"),
+    ("lib/sqlalchemy/event/base.py", "_Dispatch._update"),
     ("lib/sqlalchemy/event/registry.py", "_EventKey.__init__"),
     ("lib/sqlalchemy/event/registry.py", "_EventKey._key"),
     ("lib/sqlalchemy/event/registry.py", "_EventKey.with_wrapper"),
@@ -413,6 +427,12 @@ def gen_cases(rng, tier):
         cases.append(_random_seq(rng))
     for _ in range(4000 if thorough else 300):
         cases.append(_conc_case(rng))
+    for _ in range(3000 if thorough else 250):
+        cases.append(_prop_chain(rng))
+    for _ in range(3000 if thorough else 150):
+        cases.append(_prop_random(rng))
+    for _ in range(2000 if thorough else 200):
+        cases.append(_once_case(rng))
     return cases
 
 
@@ -420,6 +440,8 @@ def search_cases(rng, tier):
     cases = [_random_seq(rng) for _ in range(1500)]
     cases += _exhaustive(ALPHA_A, 4, "seq-exh-class") + _exhaustive(ALPHA_B, 4, "seq-exh-inst")
     cases += [_conc_case(rng) for _ in range(600)]
+    cases += [_prop_chain(rng) for _ in range(400)] + [_prop_random(rng) for _ in range(300)]
+    cases += [_once_case(rng) for _ in range(400)]
     return cases
 
 
@@ -431,6 +453,19 @@ def nontrivial(c):
             if o[0] == 2:
                 seen_listen = True
             if o[0] == 3 or (o[0] == 0 and seen_listen):
+                return True
+        return False
+    if t[0] == 3:
+        hops = sum(1 for o in t[1] if o[0] == 6)
+        return hops >= 2 and any(o[0] == 3 for o in t[1])
+    if t[0] == 2:
+        depth = 0
+        for e in t[2]:
+            if e[0] == 0:
+                depth += 1
+            elif e[0] == 2:
+                depth -= 1
+            elif depth:  # a wrapper call (skip) while the body is running
                 return True
         return False
     evs = t[2]
@@ -866,11 +901,411 @@ def _oracle_conc(c, raw, runs):
     return None
 
 
+
+# ------------------------------------------------------------------ family 3: propagation histories (_update) + both registry maps
+# ops: [0] new instance; [2, i, f, insert, propagate, once, named, retval] listen; [3, i, f] remove; [4, i, f] contains;
+#      [5, i] dispatch; [6, j, i, only_propagate] insts[j].dispatch._update(insts[i].dispatch, only_propagate);
+#      [7, nf] snapshot of _key_to_collection / _collection_to_key over owners x (target, fn < nf)
+def PL(i, f, insert=0, prop=1, once=0, named=0, retval=0):
+    return [2, i, f, insert, prop, once, named, retval]
+
+
+def _prop_chain(rng):
+    """listeners on instance 0 carried over `hops` _update steps 0 -> 1 -> 2 ..., then removal / contains / dispatch"""
+    hops = rng.choice([1, 2, 2, 3, 3, 4])
+    n = hops + 1
+    nf = 3
+    ops = [[0] for _ in range(n)]
+    live = []
+    for f in rng.sample(range(nf), rng.randint(1, nf)):
+        ops.append(
+            PL(0, f, insert=int(rng.random() < 0.3), prop=int(rng.random() < 0.85), once=int(rng.random() < 0.15),
+               named=int(rng.random() < 0.15), retval=int(rng.random() < 0.1))
+        )
+        live.append(f)
+    for h in range(hops):
+        if rng.random() < 0.3:  # an own (wrapped, hence distinct) listener on the intermediate instance
+            ops.append(PL(h + 1, rng.randrange(nf), prop=int(rng.random() < 0.5), named=1))
+        ops.append([6, h + 1, h, int(rng.random() < 0.8)])
+        if rng.random() < 0.25:
+            ops.append([5, h + 1])
+    tail = []
+    for f in live:
+        r = rng.random()
+        if r < 0.6:
+            tail += [[3, 0, f], [4, 0, f]]
+        elif r < 0.75:
+            tail += [[4, 0, f]]
+    rng.shuffle(tail)
+    ops += [[7, nf]] + tail[: len(tail) // 2] + [[5, i] for i in range(n)] + tail[len(tail) // 2 :]
+    ops += [[7, nf]] + [[5, i] for i in range(n)]
+    if rng.random() < 0.5:
+        ops += [[3, 0, f] for f in range(nf)] + [[7, nf]] + [[5, n - 1]]
+    return {"in": [3, ops], "kind": "prop-chain"}
+
+
+def _prop_random(rng):
+    n = rng.randint(2, 4)
+    nf = 3
+    ops = [[0] for _ in range(n)]
+    for _ in range(rng.randint(4, 10)):
+        r = rng.random()
+        if r < 0.35:
+            ops.append(
+                PL(rng.randrange(n), rng.randrange(nf), insert=int(rng.random() < 0.3), prop=int(rng.random() < 0.7),
+                   once=int(rng.random() < 0.15), named=int(rng.random() < 0.4), retval=0)
+            )
+        elif r < 0.6:
+            j, i = rng.sample(range(n), 2)
+            ops.append([6, j, i, int(rng.random() < 0.7)])
+        elif r < 0.75:
+            ops.append([3, rng.randrange(n), rng.randrange(nf)])
+        elif r < 0.82:
+            ops.append([4, rng.randrange(n), rng.randrange(nf)])
+        elif r < 0.9:
+            ops.append([7, nf])
+        else:
+            ops.append([5, rng.randrange(n)])
+    ops += [[7, nf]] + [[5, i] for i in range(n)]
+    return {"in": [3, ops], "kind": "prop-random"}
+
+
+def _run_prop(ops):
+    from sqlalchemy import event, exc
+    from sqlalchemy.event import attr
+    from sqlalchemy.event import registry as _reg
+
+    calls = []
+
+    class TE(event.Events):
+        @classmethod
+        def _listen(cls, event_key, *, retval=False, **kw):
+            if retval:
+                fn = event_key._listen_fn
+
+                def adapt(*a, **k):
+                    return fn(*a, **k)
+
+                event_key = event_key.with_wrapper(adapt)
+            event_key.base_listen(**kw)
+
+        def ev(self, x):
+            pass
+
+    class T:
+        dispatch = event.dispatcher(TE)
+
+    insts = []
+    fns = {}
+
+    def fn_of(n):
+        if n not in fns:
+
+            def f(*a, **k):
+                calls.append(n)
+
+            fns[n] = f
+        return fns[n]
+
+    out = []
+    keys0 = set(_reg._key_to_collection)
+    colls0 = set(_reg._collection_to_key)
+    try:
+        for idx, o in enumerate(ops):
+            code = o[0]
+            if code == 0:
+                obj = T()
+                obj.dispatch
+                insts.append(obj)
+                out.append([0])
+                continue
+            if code != 7 and any(x >= len(insts) for x in (o[1:3] if code == 6 else o[1:2])):
+                out.append([5])
+                continue
+            if code == 2:
+                _, i, f, ins, prop, once, named, retval = o
+                kw = {}
+                for name, v in (("insert", ins), ("propagate", prop), ("once", once), ("named", named), ("retval", retval)):
+                    if v:
+                        kw[name] = True
+                event.listen(insts[i], "ev", fn_of(f), **kw)
+                out.append([0])
+            elif code == 3:
+                try:
+                    event.remove(insts[o[1]], "ev", fn_of(o[2]))
+                    out.append([0])
+                except exc.InvalidRequestError:
+                    out.append([3])
+                except ValueError:
+                    out.append([4])
+            elif code == 4:
+                out.append([2, int(bool(event.contains(insts[o[1]], "ev", fn_of(o[2]))))])
+            elif code == 5:
+                del calls[:]
+                insts[o[1]].dispatch.ev(idx)
+                out.append([1, list(calls)])
+            elif code == 6:
+                if o[1] == o[2]:
+                    out.append([5])
+                    continue
+                insts[o[1]].dispatch._update(insts[o[2]].dispatch, only_propagate=bool(o[3]))
+                out.append([0])
+            elif code == 7:
+                fwd, rev = [], []
+                for own in insts:
+                    coll = own.dispatch.ev
+                    ref = coll.ref if isinstance(coll, attr._ListenerCollection) else None
+                    for tgt in insts:
+                        for f in range(o[1]):
+                            key = (id(tgt), "ev", id(fn_of(f)))
+                            fwd.append(int(ref is not None and ref in _reg._key_to_collection.get(key, {})))
+                            rev.append(int(ref is not None and key in _reg._collection_to_key.get(ref, {}).values()))
+                out.append([6, fwd, rev])
+            else:
+                raise AssertionError("bad op %r" % (o,))
+    finally:
+        event.base._remove_dispatcher(TE)
+        for k in [k for k in _reg._key_to_collection if k not in keys0]:
+            del _reg._key_to_collection[k]
+        for k in [k for k in _reg._collection_to_key if k not in colls0]:
+            del _reg._collection_to_key[k]
+    return out
+
+
+def _prop_expected(ops):
+    """registrations in force, with propagation: a listener copied by _update() belongs to the registration it was
+    copied from; remove() takes it out of every collection; contains() and both registry maps know exactly the
+    collections that hold it (a registration is held by a collection at most once)."""
+    lists, props = [], []
+    left = None  # first operation after which a function object occurs twice in one collection (known finding)
+    exps = []
+    for k, o in enumerate(ops):
+        code = o[0]
+        exp = None
+        if code == 0:
+            lists.append([])
+            props.append([])
+            exp = [[0]]
+        elif code != 7 and any(x >= len(lists) for x in (o[1:3] if code == 6 else o[1:2])):
+            exp = [[5]]
+        elif code == 2:
+            _, i, f, ins, prop, once, named, retval = o
+            plain = not (once or named or retval)
+            if not any(r["key"] == (i, f) for l in lists for r in l):
+                if plain and any(r["plain"] and r["fn"] == f for r in lists[i]) and left is None:
+                    left = k
+                r = {"key": (i, f), "fn": f, "once": bool(once), "plain": plain, "fired": False}
+                if ins:
+                    lists[i].insert(0, r)
+                else:
+                    lists[i].append(r)
+                if prop:
+                    props[i].append(r)
+            exp = [[0]]
+        elif code == 3:
+            hit = any(r["key"] == (o[1], o[2]) for l in lists for r in l)
+            for i in range(len(lists)):
+                lists[i] = [r for r in lists[i] if r["key"] != (o[1], o[2])]
+                props[i] = [r for r in props[i] if r["key"] != (o[1], o[2])]
+            exp = [[0]] if hit else [[3], [0]]
+        elif code == 4:
+            exp = [[2, int(any(r["key"] == (o[1], o[2]) for l in lists for r in l))]]
+        elif code == 5:
+            callz = []
+            for r in lists[o[1]]:
+                if r["once"]:
+                    if r["fired"]:
+                        continue
+                    r["fired"] = True
+                callz.append(r["fn"])
+            exp = [[1, callz]]
+        elif code == 6:
+            _, j, i, onlyp = o
+            if j == i:
+                exp = [[5]]
+            else:
+                for r in lists[i]:
+                    if left is None and any(r is q or (r["plain"] and q["plain"] and r["fn"] == q["fn"]) for q in lists[j]):
+                        left = k
+                for r in props[i]:
+                    if not any(r is q for q in props[j]):
+                        props[j].append(r)
+                lists[j] += [r for r in lists[i] if not any(r is q for q in lists[j])
+                             and ((not onlyp) or any(r is q for q in props[j]))]
+                exp = [[0]]
+        elif code == 7:
+            bits = []
+            for own in range(len(lists)):
+                for t in range(len(lists)):
+                    for f in range(o[1]):
+                        bits.append(int(any(r["key"] == (t, f) for r in lists[own])))
+            exp = [[6, bits, bits]]
+        exps.append(exp)
+    return exps, left
+
+
+def _oracle_prop(c, obs):
+    ops = c["in"][1]
+    exps, _ = _prop_expected(ops)
+    for k, (o, a, exp) in enumerate(zip(ops, obs, exps)):
+        code = o[0]
+        if a not in exp:
+            if code == 5:
+                return "op %d: dispatch on instance %d called %r, the registrations in force give %r" % (k, o[1], a[1:], exp[0][1:])
+            if code == 7:
+                return "op %d: registry maps (forward %r, reverse %r) differ from the registrations in force %r" % (
+                    k, a[1], a[2], exp[0][1])
+            return "op %d %r: result %r, the registrations in force give %r" % (k, o, a, exp[0])
+    return None
+
+
+# ------------------------------------------------------------------ family 2: util.only_once under the scheduler / re-entrantly
+def _once_case(rng):
+    nth = rng.choice([1, 2, 2, 3])
+    retry = int(rng.random() < 0.4)
+    progs = [rng.randint(1, 2) for _ in range(nth)]  # dispatches per thread
+    return {
+        "in": [2, retry, []],
+        "progs": progs,
+        "reenter": sorted(rng.sample(range(4), rng.choice([0, 0, 1, 2]) if nth > 1 else rng.choice([1, 1, 2]))),
+        "fail": sorted(rng.sample(range(4), rng.choice([0, 1, 2]))) if retry or rng.random() < 0.3 else [],
+        "sseed": rng.randrange(1 << 30),
+        "kind": "once-reentrant" if nth == 1 else "once-conc",
+    }
+
+
+def _run_once(c):
+    import random
+
+    from sqlalchemy import event
+    from vlib.sched import Deadlock, Sched
+
+    retry = bool(c["in"][1])
+    rng = random.Random(c["sseed"])
+    sched = Sched(rng)
+    raw = []
+    stack = {}  # tid -> stack of context ids
+    nctx = [0]
+    nenter = [0]
+    reenter, fail = set(c["reenter"]), set(c["fail"])
+
+    def tid():
+        w = sched.current()
+        return w.tid if w else -1
+
+    class TE(event.Events):
+        def ev(self, x):
+            pass
+
+    class T:
+        dispatch = event.dispatcher(TE)
+
+    tgt = T()
+
+    def do_dispatch():
+        st = stack.setdefault(tid(), [])
+        st.append(nctx[0])
+        nctx[0] += 1
+        try:
+            tgt.dispatch.ev(1)
+        except RuntimeError:
+            pass
+        finally:
+            st.pop()
+
+    def pre(x):
+        raw.append(["pre", stack[tid()][-1]])
+
+    def body(x):
+        ctx = stack[tid()][-1]
+        k = nenter[0]
+        nenter[0] += 1
+        raw.append(["enter", ctx])
+        sched.yield_()
+        if k in reenter and len(stack[tid()]) < 3:
+            do_dispatch()
+            sched.yield_()
+        bad = k in fail
+        raw.append(["exit", ctx, int(bad)])
+        if bad:
+            raise RuntimeError("listener failed")
+
+    def post(x):
+        raw.append(["post", stack[tid()][-1]])
+
+    try:
+        event.listen(T, "ev", pre)
+        if retry:
+            event.listen(T, "ev", body, _once_unless_exception=True)
+        else:
+            event.listen(T, "ev", body, once=True)
+        event.listen(T, "ev", post)
+        wrapper = list(T.dispatch.ev._clslevel[T])[1]
+
+        def fn_for(n):
+            def fn(w):
+                for _ in range(n):
+                    sched.yield_()
+                    do_dispatch()
+
+            return fn
+
+        for n in c["progs"]:
+            sched.spawn(fn_for(n))
+        err = None
+        try:
+            sched.run()
+        except Deadlock as e:
+            err = "scheduler: %s" % e
+        for w in sched.workers:
+            if w.error is not None and err is None:
+                err = "worker %d: %s: %s" % (w.tid, type(w.error).__name__, w.error)
+        if err:
+            raise AssertionError(err)
+        cell = wrapper.__closure__[wrapper.__code__.co_freevars.index("once")]
+        armed = int(bool(cell.cell_contents))
+    finally:
+        event.base._remove_dispatcher(TE)
+    # abstraction: a "pre" directly followed by the "enter" of the same context is a call of the function, any other
+    # "pre" is a call of the wrapper that returned None (nothing can run between the two listeners)
+    evs = []
+    for k, e in enumerate(raw):
+        if e[0] == "pre":
+            nxt = raw[k + 1] if k + 1 < len(raw) else None
+            evs.append([0, e[1]] if nxt and nxt[0] == "enter" and nxt[1] == e[1] else [1, e[1]])
+        elif e[0] == "exit":
+            evs.append([2, e[1], e[2]])
+    viol = None
+    inside = []
+    entries = fails = 0
+    for e in raw:
+        if e[0] == "enter":
+            entries += 1
+            if inside:
+                viol = "the once-only listener body was entered (context %d) while it was still running (context %d)" % (e[1], inside[-1])
+                break
+            inside.append(e[1])
+        elif e[0] == "exit":
+            inside.remove(e[1])
+            fails += e[2]
+    if viol is None and not retry and entries > 1:
+        viol = "once=True listener body entered %d times" % entries
+    if viol is None and retry and entries > 1 + fails:
+        viol = "once-unless-exception listener body entered %d times with %d failures" % (entries, fails)
+    return evs, [armed, entries], viol
+
+
 # ------------------------------------------------------------------ framework entry points
 def impl(c):
     t = c["in"]
     if t[0] == 0:
         return _run_seq(t[1])
+    if t[0] == 3:
+        return _run_prop(t[1])
+    if t[0] == 2:
+        evs, final, viol = _run_once(c)
+        _mon[c["sseed"]] = viol
+        return [evs, final]
     raw, final, runs = _run_conc(c)
     _mon[c["sseed"]] = _oracle_conc(c, raw, runs)
     return [raw, final]
@@ -878,15 +1313,19 @@ def impl(c):
 
 def model_pair(c, obs):
     t = c["in"]
-    if t[0] == 0:
+    if t[0] in (0, 3):
         return t, obs
     raw, final = obs
+    if t[0] == 2:
+        return [2, t[1], raw], [-1] + list(final)
     return [1, t[1], raw], [-1] + list(final)
 
 
 def oracle(c, obs):
     if c["in"][0] == 0:
         return _oracle_seq(c, obs)
+    if c["in"][0] == 3:
+        return _oracle_prop(c, obs)
     return _mon.get(c["sseed"])
 
 
@@ -898,6 +1337,11 @@ FINDING_OF = {
 
 
 def match_finding(c, what):
+    if c["in"][0] == 3 and what.startswith("op "):
+        # re-run the oracle's bookkeeping: did the history put one function object twice into a collection before?
+        k = int(what[3:].split()[0].rstrip(":"))
+        left = _prop_expected(c["in"][1])[1]
+        return "C28-propagation-duplicate-fn" if left is not None and left <= k else None
     if c["in"][0] != 0 or not what.startswith("op "):
         return None
     k = int(what[3:].split()[0].rstrip(":"))
